@@ -7,6 +7,8 @@ func init() {
 		Run: func(c *Ctx) {
 			c.Rule("C19.R1", "guarded-by: every entry point reaches accesses of the 7 shared states only with the owning lock held (R for reads, W for writes)", 20)
 			ruleGuardedBy(c, "C19.R1", []string{cacheLockID, "FloatingIPPlugin.nodeSubnetLock", "crdKey.Mutex", "crdCache.lock", "PortMappingHandler.Mutex", "PolicyManager.Mutex"}, 60)
+			c.Rule("C19.R3", "the static CNI network configuration is shared read-only (never written after Init)", 3)
+			ruleSharedConfImmutable(c, "C19.R3")
 			c.Rule("C19.R2", "slices in guarded fields are replaced wholesale, never modified in place", 8)
 			ruleNoInPlaceSliceReuse(c, "C19.R2")
 		}})
